@@ -45,7 +45,7 @@ func init() {
 				}
 				return 80_000
 			}, Run: c17Renderer,
-				Min: map[string]int64{"pairs": 60000, "A_truncated_stream": 10000, "A_decode_error": 10000, "A_mid_path": 5000, "B_gradient_from_default_registers": 5000, "B_smooth_first": 5000, "draws_compared": 50000, "pixel_pairs": 2000, "A_other_rectangle": 10000, "B_viewbox_is_A_viewbox_moved": 3000, "B_palette_equals_A_palette": 3000, "pixel_pairs_A_into_empty_rectangle": 500, "B_degenerate_viewbox": 3000, "pixel_pairs_operator_left_by_A": 100}},
+				Min: map[string]int64{"pairs": 60000, "A_truncated_stream": 10000, "A_decode_error": 10000, "A_mid_path": 5000, "B_gradient_from_default_registers": 5000, "B_smooth_first": 5000, "draws_compared": 50000, "pixel_pairs": 2000, "A_other_rectangle": 10000, "B_viewbox_is_A_viewbox_moved": 3000, "B_palette_equals_A_palette": 3000, "pixel_pairs_A_into_empty_rectangle": 500, "B_is_a_blank_graphic": 2000, "A_rectangle_same_size_other_origin": 3000, "B_degenerate_viewbox": 3000, "pixel_pairs_operator_left_by_A": 100}},
 		},
 	})
 }
@@ -220,6 +220,7 @@ func c17Encoder(c *run.Ctx, idx uint64) {
 	}
 	selMismatch := ""
 	observe := false
+	lodFirst := r.Bool()
 	callerTransforms := append(make([]generate.Aff3, 0, 4), generate.Scale(2, 3), generate.Translate(-5, 4), generate.Scale(0.5))
 	// runB encodes program B on e: after Reset(vbB, palB), or — reset false, only
 	// used with the default metadata — on a never-Reset zero-value Encoder. The
@@ -236,6 +237,9 @@ func c17Encoder(c *run.Ctx, idx uint64) {
 			}
 		}
 		e.HighResolutionCoordinates = hiresB
+		if !reset && lodFirst {
+			e.LOD() // an observer as the very first call of a never-Reset Encoder
+		}
 		for i := range b {
 			if i == helperAt {
 				if g == nil {
@@ -498,6 +502,11 @@ func c17Renderer(c *run.Ctx, idx uint64) {
 		degenerateB = true
 		c.Count("B_degenerate_viewbox", 1)
 	}
+	if r.Chance(1, 16) {
+		// a graphic that consists of its metadata only: Reset is all it delivers
+		b = nil
+		c.Count("B_is_a_blank_graphic", 1)
+	}
 	var eB encode.Encoder
 	eB.Reset(vbB, palB)
 	eB.HighResolutionCoordinates = true
@@ -537,11 +546,16 @@ func c17Renderer(c *run.Ctx, idx uint64) {
 	rectA := rect
 	if r.Chance(1, 3) {
 		rectA = image.Rect(0, 0, r.Range(1, 300), r.Range(1, 300)).Add(image.Pt(r.Intn(90), r.Intn(90)))
+		if r.Chance(1, 3) {
+			rectA = rect.Add(image.Pt(r.Range(1, 70), r.Range(-20, 50))) // the same size somewhere else (cells of an atlas)
+			c.Count("A_rectangle_same_size_other_origin", 1)
+		}
 		c.Count("A_other_rectangle", 1)
 	}
 	probes := []image.Point{{0, 0}, {3, 5}, {rect.Dx() - 1, rect.Dy() - 1}}
 	var reused, fresh []rec.RCall
 	var errR, errF error
+	var selR, selF [2]uint8
 	ok := c.Guard("renderer reuse", func() interface{} { return desc(nil) }, func() {
 		rz := &rec.Raster{Probes: probes}
 		var z render.Renderer
@@ -565,11 +579,13 @@ func c17Renderer(c *run.Ctx, idx uint64) {
 		rz.ResetLog()
 		errR = decode.Decode(&z, bytesB)
 		reused = rz.Calls
+		selR = [2]uint8{z.CSel(), z.NSel()}
 		rzF := &rec.Raster{Probes: probes}
 		var zf render.Renderer
 		zf.SetRasterizer(rzF, rect)
 		errF = decode.Decode(&zf, bytesB)
 		fresh = rzF.Calls
+		selF = [2]uint8{zf.CSel(), zf.NSel()}
 	})
 	if !ok {
 		return
@@ -582,6 +598,10 @@ func c17Renderer(c *run.Ctx, idx uint64) {
 		if fresh[i].K == rec.RDraw {
 			c.Count("draws_compared", 1)
 		}
+	}
+	if selR != selF {
+		c.Violate("renderer/selectors-after-the-decode-differ-from-fresh", desc(map[string]interface{}{"reused_csel_nsel": selR[:], "fresh_csel_nsel": selF[:]}))
+		return
 	}
 	if i, why := sameRCalls(reused, fresh); i >= 0 {
 		d := map[string]interface{}{"call_index": i}
